@@ -185,6 +185,14 @@ def main():
         o1, o2 = outcome(lambda: c.radius()), outcome(lambda: sq.side())
         if o1 != ('ret', 2) or o2 != ('ret', 3) or sq.area() != 9 or c.area() != 12:
             fails.append(f'two objects registered under one typeid: circle.radius() -> {o1[:3]}, square.side() -> {o2[:3]}')
+        # keyword arguments of ANY name round-trip -- also one called `self` (the generated proxy methods take their own receiver positional-only)
+        pd, ld = m.dict(), {}
+        for kw in ({'self': 1}, {'args': 2, 'kwargs': 3}, {'meth': 4, 'key': 5}):
+            o1, o2 = outcome(lambda: pd.update(**kw)), outcome(lambda: ld.update(**kw))
+            if o1[:2] != o2[:2]:
+                fails.append(f'dict.update(**{kw}): direct {o2[:3]} vs proxy {o1[:3]}')
+        if dict(pd.items()) != ld:
+            fails.append(f'dict state after keyword updates: proxy {dict(pd.items())} vs direct {ld}')
         # Value / Namespace
         v = m.Value('i', 3)
         if v.get() != 3 or v.value != 3:
